@@ -197,6 +197,7 @@ class d3TimeScaleMilliseconds(object):
         pass
 
     def range(self, start, stop, step):
+        step = int(step)
         return list(
             map(
                 milli2dt,
